@@ -464,9 +464,15 @@ class BioSeq():
             if gap is not None:
                 # from bisect import bisect
                 nogaps = [i for i, nt in enumerate(self.data) if nt not in gap]
-                adj = lambda i: nogaps[i] if i is not None and i < len(nogaps) else None
+                def adj(i):
+                    # map a slice bound in residue numbering to column numbering
+                    if i is None:
+                        return None
+                    if i < 0:
+                        i = max(i + len(nogaps), 0)
+                    return nogaps[i] if i < len(nogaps) else len(self.data)
                 if isinstance(index, int):
-                    index = adj(index)
+                    index = nogaps[index]
                 elif isinstance(index, slice):
                     index = slice(adj(index.start), adj(index.stop), index.step)
             subseq = self.__class__(self.data[index], meta=self.meta)
